@@ -849,7 +849,13 @@ fn respond(line: &str) -> R {
             for block in blocks {
                 let mut canonical = block.clone();
                 crate::param::resolve_non_predicate_params(&mut canonical);
-                out.push(node("Pair", "", vec![ser_item_impl(&block)?, ser_item_impl(&canonical)?]));
+                let mut twice = canonical.clone();
+                crate::param::resolve_non_predicate_params(&mut twice);
+                out.push(node(
+                    "Pair",
+                    "",
+                    vec![ser_item_impl(&block)?, ser_item_impl(&canonical)?, ser_item_impl(&twice)?],
+                ));
             }
             Ok(node("Blocks", "", out))
         }
